@@ -44,13 +44,17 @@ func c11TokenList() []string {
 	// fields split breaks tokens with spaces; add them back
 	out = append(out, `."a b"`, `"a b"`, "explode(.)", "select(.)", "map(.)", "sort_by(.)", "with(.; .)", "del(.)", `has("a")`, "group_by(.)", "unique_by(.)", "with_entries(.)", "any_c(.)", "sort_keys(..)", "pick([0])",
 		// blanks of every kind inside the parenthesised number of the operators whose rule text is re-parsed by hand
-		"flatten( 1 )", "flatten(\t1)", "to_json(\n0)", "to_yaml(1 )", "to_xml( 1)", "parent(\t1\t)", `omit(["a"])`, "eval(.)", "to_entries", "(.. | select(tag == \"!!int\"))", ".. |= .", "... style=\"\"")
+		"flatten( 1 )", "flatten(\t1)", "to_json(\n0)", "to_yaml(1 )", "to_xml( 1)", "parent(\t1\t)", `omit(["a"])`, "eval(.)", "to_entries", "(.. | select(tag == \"!!int\"))", ".. |= .", "... style=\"\"",
+		// every node turned into an alias by name (the operator does not look the anchor up)
+		"(.. alias=\"x\")", "(... alias=\"nowhere\")")
 	return out
 }
 
 var c11Docs = []string{
 	"null\n", "5\n", "hello world\n", "{}\n", "a: 1\nb: [1, 2]\nc: {d: x}\n", "[]\n", "- 1\n- a\n- [2, 3]\n- {k: v}\n", "a: [{b: {c: [1, {d: 2}]}}]\n",
 	"x: &x {p: 1, q: [1]}\ny: *x\nz:\n  <<: *x\n  r: 2\nw: [*x, &s s, *s]\n", "a: &x [*x, *x]\nb: &y {k: *y}\n", "- 0x1F\n- 1.5\n- ~\n- .inf\n- 2021-01-01T00:00:00Z\n- !t v\n- |\n  lit\n",
+	// merge keys whose value is not an alias
+	"a: {<<: foo, b: 1}\nc: {<<: {p: 1}, q: 2}\nd: {<<: [{r: 1}, bar], s: 2}\n",
 	// explicit core tags on values the tag's parser does not expect (every consumer of a tagged number must cope)
 	"- !!float NaN\n- 1.5\n- !!float nan\n- .nan\n- !!int x\n- !!float abc\n- !!bool maybe\n- !!int 99999999999999999999\n- !!null x\n",
 }
